@@ -10,6 +10,8 @@ CLAIMED['C02'] = dict(text='Coq theorems over the GENERATED locate_slice (re-tra
              note='Negative steps, decreasing axes and the strict rule are proved on the finite grid only (stated in the theorems); np.searchsorted modelled by its contract on sorted input; locate_one hand-modelled.', tech='py2coq translation of locate_slice + Coq bridge/bounding-box proofs + vm_compute sweeps', ref='3.2')
 CLAIMED['C01'] = dict(text='Coq theorems (unbounded): first-match/IndexError specification of scalar label lookup; soundness of the argsort+searchsorted+clip+guard list lookup (every returned position carries exactly the requested label, any failure is IndexError, so clip never silently returns a neighbour); masks; the main orthogonal-sampling theorem for every index form (element at result coordinate c = input element at the independently resolved per-dimension positions, scalar dims dropped, kept axes relabelled in requested order, metadata kept, result well-formed). Position mode and slices go through the same theorem (slices through the generated locate_slice of C02).',
              note='Completeness of the list lookup (all labels present implies success) and the tolerance search are validated by correspondence + oracle only, not proved; orthogonal_indexer/np.ix_ modelled by specification (np_outer).', tech='Coq proof over tabulate/get model + vm_compute correspondence', ref='3.1')
+CLAIMED['C03'] = dict(text='Coq theorems (unbounded): frame+write theorem for assignment through any index form (labels/dims/metadata/shape untouched, unaddressed cells keep their value, addressed cells receive the broadcast right-hand side), addressed set = read set (box_coord sound and, for duplicate-free lists, complete: read-back returns what was written), N-d boolean masks; cast losslessness decided on the finite kind table of the GENERATED _maybe_cast_type (re-translated from indexing.py on every run).',
+             note='numpy value conversion on assignment (cell_to_kind) and broadcasting of the right-hand side are modelled by specification; with repeated positions the last written value wins (stated); inplace=False checked by operand snapshots in the harness.', tech='Coq proof + generated cast table by vm_compute + vm_compute correspondence', ref='3.3')
 NOT_YET = {}
 ALL = ['C%02d' % i for i in range(1, 21)]
 def main():
